@@ -51,6 +51,9 @@ func (area) Run(c *core.Ctx) error {
 	leafTimeout = time.Duration(argInt(c, "leaf_timeout_ms", 1500)) * time.Millisecond
 	caseTimeout := time.Duration(argInt(c, "case_timeout_s", 30)) * time.Second
 	maxFails := argInt(c, "max_fails", 25)
+	maxHangs := argInt(c, "max_hangs", 3)
+	hangCases := 0
+	leafHang.report = func(desc string) { c.Fail("leaf-blocks-until-deadline", desc) }
 	for i := 0; i < c.N; i++ {
 		if !c.Want(i) {
 			continue
@@ -74,7 +77,14 @@ func (area) Run(c *core.Ctx) error {
 			c.Flush()
 			return nil
 		}
+		if n, _ := takeLeafHang(); n > 0 {
+			hangCases++
+		}
 		c.Flush()
+		if hangCases >= maxHangs {
+			c.Note(fmt.Sprintf("stopped after %d cases with a leaf that blocks until its deadline", hangCases))
+			return nil
+		}
 		if c.Fails >= maxFails {
 			c.Note(fmt.Sprintf("stopped after %d oracle failures", c.Fails))
 			return nil
